@@ -56,6 +56,13 @@ def single_worlds(tier):
                 w = mk_single(seed, 4, chosen, tuple(i % 2 for i in range(len(chosen))), 1, base=1234400)
                 w["ps_header_type"] = ps_type
                 yield w, dict(tag=tag), None
+    # the first variant sits on the very first base of the contig (VCF POS 1, internal position 0)
+    for k in (2, 3, 4):
+        subs = subsets(k)
+        for n in (1, 2):
+            for chosen in itertools.combinations(subs, n):
+                for tag in ("PS", "HP"):
+                    yield mk_single(seed, k, chosen, tuple(i % 2 for i in range(n)), 1, base=-60), dict(tag=tag), None
     # the input already carries phase: on the heterozygous SNVs (re-phased by the run) and on a two-ALT record in
     # between, which the run never phases itself - in the output it must not sit in a phase set
     for chosen in (((0, 2, 3),), ((0, 2), (2, 3)), ((0, 3), (2, 3))):
